@@ -69,7 +69,7 @@ static uint64_t vx_gv[22]; static uint8_t vx_gd[22]; static unsigned vx_g_i, vx_
 #define VX_G_LINK_CHECK(cond) __CPROVER_assume(cond)
 #endif
 #define VX_G_LINK(m) do { if (vx_g_i >= 1 && vx_g_i < 22) { \
-    VX_G_LINK_CHECK(vx_gv[vx_g_i - 1] == 10 * (m) + vx_gd[vx_g_i - 1] && (m) <= UINT64_MAX / 10); } } while (0)
+    VX_G_LINK_CHECK(vx_gv[vx_g_i - 1] == 10 * (m) + vx_gd[vx_g_i - 1] && (m) <= UINT64_MAX / 10 && vx_gd[vx_g_i - 1] <= UINT64_MAX - 10 * (m)); } } while (0)
 #define VX_G_DIGIT(v) do { uint64_t vx_m = VX_MAG(v); \
     __CPROVER_assert(vx_g_i < 20, "[C04] ghost: at most 20 digits are generated"); \
     VX_G_LINK(vx_m); \
